@@ -126,6 +126,26 @@ Definition set_of_list (l : list Z) : Z -> bool := fun i => existsb (Z.eqb i) l.
 Definition ws_text (s : Z) : bytes :=
   B"[" ++ join B", " (map (fun w => short (name_at weekday_names w)) (members (mem s))) ++ B"]".
 
+(* adaptors over the same walk: the members in cyclic order from the start day are L; count = |L|,
+   last = last of L, nth k / nth_back k = the k-th from the front / from the back, rev() = L reversed,
+   collecting gives L, the length of the reversed iterator is |L|.  The size hint is only required
+   to be a true bound: lower <= |L| <= upper (absent upper = no bound). *)
+Definition j_adapt (s w k : Z) (out : val) : verdict :=
+  let l := cyc_members (mem s) w in
+  let n := Z.of_nat (List.length l) in
+  let wds x := VTup (map VInt x) in
+  match out with
+  | VTup [VInt lo; hi; cnt; lst; nthf; nthb; rnth; coll; rcoll; rlen] =>
+      let hint_ok := (0 <=? lo) && (lo <=? n) &&
+                     match hi with VNone => true | VSome (VInt h) => n <=? h | _ => false end in
+      if negb hint_ok then JBad B"size-hint-not-a-bound"
+      else judge_eq (VTup [VInt n; vwd (List.last (map Some l) None); vwd (nth_error l (Z.to_nat k));
+                           vwd (nth_error (rev l) (Z.to_nat k)); vwd (nth_error (rev l) (Z.to_nat k));
+                           wds l; wds (rev l); VInt n])
+                    (VTup [cnt; lst; nthf; nthb; rnth; coll; rcoll; rlen])
+  | _ => JBad B"shape"
+  end.
+
 Definition judge (op : bytes) (args : list val) (out : val) : verdict :=
   (* ---- Weekday: Z/7 *)
   if op_is op "wd.succ" then on1 is_wd args out (fun w => VInt ((w + 1) mod 7))
@@ -189,6 +209,14 @@ Definition judge (op : bytes) (args : list val) (out : val) : verdict :=
                                            | Some s, Some w => cyc_members (mem s) w | _, _ => [] end) with
         | Some _, Some _, Some steps => judge_eq (VTup steps) out
         | _, _, _ => JSkip
+        end
+    | _ => JSkip end
+  else if op_is op "ws.adapt" then
+    match args with
+    | [a; b; VInt k] =>
+        match is_set a, is_wd b with
+        | Some s, Some w => if (0 <=? k) && (k <=? 9) then j_adapt s w k out else JSkip
+        | _, _ => JSkip
         end
     | _ => JSkip end
   else JSkip.
